@@ -356,6 +356,23 @@ def clause4_route(ctx, P):
                    "or the peer handed to the reply handler / sweeps)" % fmt_term(tb))
     if nacc < 5:
         raise AnalysisBroken("routing table accesses found: %d" % nacc)
+    # the final answer of a routed request goes to the REQUESTER recorded in the routing entry, whoever completes it
+    nans = 0
+    for f in P.own_functions():
+        if f.base != "router.c":
+            continue
+        for c in f.calls(("format_and_send_response", "create_error_response", "create_result_response")):
+            pt = P.term(f, c.a[0])
+            if not Q.mentions(pt, lambda x: x[0] == "field" and x[2] == "struct.routing_request"):
+                # helper taking the recipient as parameter: its callers are checked instead
+                if pt[0] == "param" or pt[0] == "phi":
+                    continue
+            nans += 1
+            ctx.ob("C03.4 R-PAIR", f, Q.ordinal_site(f, c, P) + ":answer-goes-to-requester",
+                   Q.is_field_load(pt, "struct.routing_request", "requesting_peer") is not None,
+                   "the answer of a routed request is built for / sent to %s, expected request->requesting_peer" % fmt_term(pt))
+    if nans < 4:
+        raise AnalysisBroken("answer sites of routed requests found in router.c: %d" % nans)
     # owner_peer / requesting_peer written once, in the allocator
     for fld in ("owner_peer", "requesting_peer", "origin_request_id"):
         sts = Q.field_stores(P, "struct.routing_request", fld)
